@@ -410,6 +410,12 @@ impl<T: Config> P2PSession<T> {
         // check time sync between clients and send wait recommendation, if appropriate
         self.check_wait_recommendation();
 
+        // wait recommendations and desync reports are queued outside of handle_event(), which is
+        // where the queue is trimmed: keep the documented bound for them as well
+        while self.event_queue.len() > MAX_EVENT_QUEUE_SIZE {
+            self.event_queue.pop_front();
+        }
+
         Ok(requests)
     }
 
